@@ -123,7 +123,31 @@ func verifDeepRestamp(v any, servedBy string) any {
 /* the object of a legitimate activity, in one of several provenance situations */
 func (w *verifLW) object(k int) any {
 	p := fmt.Sprintf("/s%d/n%d", w.sid, k)
-	switch w.rng.Intn(10) {
+	switch w.rng.Intn(14) {
+	case 10: /* a note without an id, embedded by A, that names an author on another host */
+		m := w.actor(w.M.URL(fmt.Sprintf("/s%d/m", w.sid)), "M")
+		w.publish(m)
+		return w.note("", "A", m["id"], nil)
+	case 11: /* a note with an id whose author is embedded and has no id */
+		anon := w.actor("", "A")
+		delete(anon, "id")
+		n := w.note(w.A.URL(p), "A", anon, nil)
+		w.publish(n)
+		return n
+	case 12: /* several authors: one that cannot be loaded comes before a foreign one */
+		m := w.actor(w.M.URL(fmt.Sprintf("/s%d/m", w.sid)), "M")
+		w.publish(m)
+		n := w.note(w.A.URL(p), "A", []any{w.A.URL(fmt.Sprintf("/s%d/nobody%d", w.sid, k)), m["id"]}, nil)
+		w.publish(n)
+		return n
+	case 13: /* several authors: a document of the wrong kind comes before a foreign one */
+		m := w.actor(w.M.URL(fmt.Sprintf("/s%d/m", w.sid)), "M")
+		w.publish(m)
+		other := w.note(w.A.URL(fmt.Sprintf("/s%d/notanactor%d", w.sid, k)), "A", nil, nil)
+		w.publish(other)
+		n := w.note(w.A.URL(p), "A", []any{other["id"], m["id"]}, nil)
+		w.publish(n)
+		return n
 	case 7: /* embedded copy of a note that lives on the same hostname but another port: must be re-fetched from there */
 		q := w.actor(w.A2.URL(fmt.Sprintf("/s%d/q", w.sid)), "A2")
 		w.publish(q)
@@ -238,6 +262,10 @@ func (w *verifLW) outboxEntry(class string, k int) any {
 		id := w.M.URL(fmt.Sprintf("/s%d/act%d", w.sid, k))
 		w.publish(w.activity(id, "M", "Create", mal["id"], w.note(w.M.URL(fmt.Sprintf("/s%d/mn%d", w.sid, k)), "M", mal["id"], nil)))
 		return w.activity(id, "A", "Create", w.owner, w.object(k))
+	case "anon_actor":
+		anon := w.actor("", "A")
+		delete(anon, "id")
+		return w.activity("", "A", "Create", anon, w.note("", "A", nil, nil))
 	case "actor_fetch_fails":
 		a := w.activity(act, "A", "Create", w.A.URL(fmt.Sprintf("/s%d/noactor%d", w.sid, k)), w.object(k))
 		w.publish(a)
@@ -287,6 +315,8 @@ func (w *verifLW) replyEntry(class string, k int, parent string) any {
 		n := w.note(r, "A", w.owner, twin["id"])
 		w.publish(n)
 		return n
+	case "anon_parent":
+		return w.note("", "A", nil, map[string]any{"type": "Note", "name": "STAMP_A", "content": "<p>nobody's</p>"})
 	case "forged_author":
 		m := w.actor(w.M.URL(fmt.Sprintf("/s%d/m", w.sid)), "M")
 		w.publish(m)
@@ -375,7 +405,16 @@ func verifRunListing(out *verifkit.Trace, w *verifLW, in verifListingIn) {
 		}
 		outboxID := w.A.URL(fmt.Sprintf("/s%d/outbox", w.sid))
 		outbox := map[string]any{"id": outboxID, "type": "OrderedCollection", "totalItems": len(entries)}
-		if in.Place == "foreign_anon" || in.Place == "redirect_anon" {
+		var inlineOutbox map[string]any
+		if in.Place == "inline_anon" {
+			/* the listing is part of the owner's document and has no id of its own */
+			inlineOutbox = map[string]any{"type": "OrderedCollection", "totalItems": len(entries)}
+			if w.rng.Intn(2) == 0 {
+				inlineOutbox["orderedItems"] = entries
+			} else {
+				inlineOutbox["first"] = map[string]any{"type": "OrderedCollectionPage", "orderedItems": entries}
+			}
+		} else if in.Place == "foreign_anon" || in.Place == "redirect_anon" {
 			/* the listing is served by B and has no id; what it embeds is B's word */
 			foreign := fmt.Sprintf("/s%d/outbox", w.sid)
 			anon := map[string]any{"type": "OrderedCollection", "totalItems": len(entries)}
@@ -407,6 +446,9 @@ func verifRunListing(out *verifkit.Trace, w *verifLW, in verifListingIn) {
 		}
 		owner := w.actor(w.owner, "A")
 		owner["outbox"] = outboxID
+		if inlineOutbox != nil {
+			owner["outbox"] = inlineOutbox
+		}
 		w.publish(owner)
 		rootURL = w.owner
 	} else {
@@ -417,7 +459,9 @@ func verifRunListing(out *verifkit.Trace, w *verifLW, in verifListingIn) {
 		w.publish(w.actor(w.owner, "A"))
 		n := w.note(parent, "A", w.owner, nil)
 		replies := map[string]any{"id": parent + "/replies", "type": "Collection", "items": entries}
-		if in.Place == "foreign_anon" || in.Place == "redirect_anon" {
+		if in.Place == "inline_anon" {
+			n["replies"] = map[string]any{"type": "Collection", "items": entries}
+		} else if in.Place == "foreign_anon" || in.Place == "redirect_anon" {
 			foreign := fmt.Sprintf("/s%d/replies", w.sid)
 			w.serve(w.B, foreign, map[string]any{"type": "Collection", "items": verifDeepRestamp(entries, "B")})
 			n["replies"] = w.B.URL(foreign)
@@ -496,7 +540,7 @@ func TestVerifListing(t *testing.T) {
 		}
 		s.Place = "own"
 		if s.Owner == "path" && w.rng.Intn(3) == 0 {
-			s.Place = []string{"foreign_anon", "redirect_anon"}[w.rng.Intn(2)]
+			s.Place = []string{"foreign_anon", "redirect_anon", "inline_anon"}[w.rng.Intn(3)]
 		}
 		for k := 3 + w.rng.Intn(6); k > 0; k-- {
 			s.Classes = append(s.Classes, pool[w.rng.Intn(len(pool))])
